@@ -33,7 +33,7 @@ AXIOM_ALLOW = set()
 TRUSTED_BASE = [
     'Coq 8.16.1 kernel (coqc, Debian build), full .vo build; vm_compute used for witnesses, non-vacuity examples and the per-run sample cross-check; native_compute not used',
     'axioms: none (every theorem in Props/ prints "Closed under the global context"; allow-list empty)',
-    'extraction: ExtrOcamlBasic only (Extract Inductive bool/option/unit/list/prod/sumbool/sumor, Extract Inlined Constant andb/orb/negb/fst/snd); N, nat, Z, positive stay inductive; ocaml/driver.ml (sexp reader/printer); ocamlfind ocamlopt',
+    'extraction: ExtrOcamlBasic only (Extract Inductive bool/option/unit/list/prod/sumbool/sumor, Extract Inlined Constant andb/orb/negb/fst/snd); N, nat, Z, positive stay inductive; ocaml/driver.ml (sexp reader/printer; decimal <-> N of any size through the extracted N.add / N.mul / N.div_eucl); ocamlfind ocamlopt',
     'hand-written model tied to /repo by the correspondence run only (sampling + bounded enumeration); regex engines, CPython/V8 evaluation, io/codecs are modelled, not verified',
     'harness: generators, drivers, canonicalisation, comparison (python3 / node), guarded by planted canaries',
 ]
